@@ -35,7 +35,7 @@ fn chain_case(rng: &mut Rng, rec: &mut Rec) {
     };
     for hop_i in 0..hops {
         let (kind, loc) = clean_location(rng, &original);
-        let hop = Hop { status: *rng.pick(&REDIRECT_STATUSES), locations: vec![loc.clone().into_bytes()], with_body: rng.chance(1, 3) };
+        let hop = Hop { status: { let mut st = rng.usize_in(300, 399) as u16; if st == 304 { st = 303; } st }, locations: vec![loc.clone().into_bytes()], with_body: rng.chance(1, 3) };
         // the caller attaches its own cookie for this hop (must not be confused with the inherited one)
         if hop_i > 0 && rng.chance(1, 2) {
             let _ = flow.header("cookie", format!("t{}-jar=fresh", hop_i));
